@@ -227,10 +227,9 @@ class SigmaFilter(SigmaRuleBase):
 
         return True
 
-    # Keywords that must not be prefixed when rewriting filter conditions
-    _CONDITION_KEYWORDS: ClassVar[frozenset[str]] = frozenset(
-        {"not", "and", "or", "all", "any", "of", "1"}
-    )
+    # Words that must not be prefixed when rewriting filter conditions
+    _CONDITION_OPERATORS: ClassVar[frozenset[str]] = frozenset({"not", "and", "or"})
+    _CONDITION_QUANTIFIERS: ClassVar[frozenset[str]] = frozenset({"all", "any", "1"})
 
     def apply_on_rule(
         self: Self, rule: SigmaRule | SigmaCorrelationRule
@@ -254,28 +253,60 @@ class SigmaFilter(SigmaRuleBase):
         #   - suffix wildcards:   "selection_*"  -> "PREFIX_selection_*"
         #   - prefix wildcards:   "*_allow"      -> "PREFIX_*_allow"
         #   - the "them" keyword: "1 of them"    -> "1 of PREFIX_*"
-        # Sigma keywords (not, and, or, all, any, of, 1) are left unchanged.
+        # The operators (not, and, or) are left unchanged. The words of a selector are only
+        # keywords at their position in a selector ("1|any|all of <pattern>"): a quantifier is
+        # followed by "of", "of" follows a quantifier and "them" follows "of". Everywhere else
+        # they are detection names, as in the condition grammar.
         #
         # The regex matches a single Sigma condition token: an optional leading `*`
         # (wildcard prefix) or a letter, followed by alphanumerics, `*`, `_`, or `-`.
         # Wildcards are only valid at the start or end of a Sigma identifier pattern
         # but this regex accepts any occurrence; the Sigma condition parser is
         # responsible for rejecting syntactically invalid patterns at parse time.
-        def _replace_token(m: re.Match[str]) -> str:
+        original_condition = self.filter.condition[0]
+        tokens = list(re.finditer(r"[a-zA-Z0-9*_-]+", original_condition))
+
+        def _follows(index: int) -> bool:
+            """Token at index follows its predecessor separated only by whitespace."""
+            return (
+                index > 0
+                and original_condition[tokens[index - 1].end() : tokens[index].start()].strip()
+                == ""
+            )
+
+        rewritten: list[str] = []
+        kinds: list[str] = []  # kind of each token: operator, quantifier, of, pattern or name
+        pos = 0
+        for index, m in enumerate(tokens):
             token = m.group(0)
-            if token in self._CONDITION_KEYWORDS:
-                return token
-            if token == "them":
+            if token in self._CONDITION_OPERATORS:
+                kind = "operator"
+            elif (
+                token in self._CONDITION_QUANTIFIERS
+                and index + 1 < len(tokens)
+                and tokens[index + 1].group(0) == "of"
+                and _follows(index + 1)
+            ):
+                kind = "quantifier"
+            elif token == "of" and index > 0 and kinds[index - 1] == "quantifier":
+                kind = "of"
+            elif index > 0 and kinds[index - 1] == "of" and _follows(index):
+                kind = "pattern"
+            else:
+                kind = "name"
+            kinds.append(kind)
+
+            if kind in ("operator", "quantifier", "of"):
+                replacement = token
+            elif kind == "pattern" and token == "them":
                 # "them" means all detections; replace with a pattern that matches all
                 # filter identifiers carrying the current prefix.
-                return prefix + "_*"
-            return prefix + "_" + token
-
-        filter_condition = re.sub(
-            r"[a-zA-Z0-9*_-]+",
-            _replace_token,
-            self.filter.condition[0],
-        )
+                replacement = prefix + "_*"
+            else:
+                replacement = prefix + "_" + token
+            rewritten.append(original_condition[pos : m.start()] + replacement)
+            pos = m.end()
+        filter_condition = "".join(rewritten) + original_condition[pos:]
 
         for i, condition_str in enumerate(rule.detection.condition):
             rule.detection.condition[i] = f"({condition_str}) and " + f"({filter_condition})"
